@@ -139,9 +139,11 @@ def generate(seed, tier):
         elif kind == "graph":
             op["g"] = g.choice(list(range(len(names))) + ["auto", None])
             op["how"] = g.choice(["graph", "add_graph", "graph-with-view"])
+            op["h2"] = g.chance(0.2)  # through a second Dataset object on the same store
         elif kind == "remove_graph":
             op["g"] = gi()
             op["as"] = g.choice(["id", "graph", "storedview"])
+            op["h2"] = g.chance(0.3)  # through a second Dataset object on the same store
             model[op["g"]] = set()
         elif kind == "openq":
             nq += 1
@@ -204,6 +206,7 @@ def execute(trace, ctx):
     store = Memory()
     ds = Dataset(store, default_union=cfg["union"])
     cg = ConjunctiveGraph(store, identifier=DATASET_DEFAULT_GRAPH_ID)
+    ds2 = Dataset(store, default_union=cfg["union"])  # a second handle on the same data
     DEF = ("u", str(DATASET_DEFAULT_GRAPH_ID))
     if len({n[1] for n in names}) < len(names):
         ctx.probe("bnode-and-iri-same-string")
@@ -279,12 +282,12 @@ def execute(trace, ctx):
             got = {tkey(t) for t in g}
             exp = model.get(k, set())
             ctx.check(got == exp, "C02.graphs-content", lambda: f"{where}: Graph yielded by graphs() for {k} has missing={_srt(exp - got)} extra={_srt(got - exp)}")
-        # 2b. graphs(triple): exactly the graphs that hold the triple (the default graph may or may not be reported)
+        # 2b. graphs(triple): exactly the graphs that hold the triple
         for t in vt[: cfg["sweep_patterns"]]:
             tk = tuple(skey(x) for x in t)
             holders = {n for n, ts in model.items() if tk in ts}
             gotg = {key(g.identifier) for g in ds.graphs((T(t[0]), T(t[1]), T(t[2])))}
-            ctx.check(holders - {DEF} <= gotg <= holders | {DEF}, "C02.graphs-of-triple", lambda: f"{where}: graphs({t}) -> {_srt(gotg)}, the triple is in {_srt(holders)}")
+            ctx.check(gotg == holders, "C02.graphs-of-triple", lambda: f"{where}: graphs({t}) -> {_srt(gotg)}, the triple is in {_srt(holders)}")
         # 3. stored views
         for vid, (v, k) in views.items():
             exp = model.get(k, set())
@@ -326,6 +329,15 @@ def execute(trace, ctx):
                         else:
                             gota = {(key(a), key(c_)) for a, _, c_ in ds.triples((None, alt, None, gt))}
                         ctx.check(gota == ea, "C02.path-in-graph", lambda: f"{where}: ds.triples((ANY, p|q, ANY)) restricted to <{k}> ({form}) missing={_srt(ea - gota)} extra={_srt(gota - ea)}", graph_empty=not exp, union=cfg["union"])
+                if pi == 0:
+                    # triples_choices restricted to this graph: through a view, and through the dataset with context=
+                    ch = [URIRef(EX + "p"), URIRef(EX + "q")]
+                    ec = {t for t in real if t[1] in (("u", EX + "p"), ("u", EX + "q"))}
+                    gotv = {tkey(t) for t in Graph(store, gt).triples_choices((None, ch, None))}
+                    ctx.check(gotv == ec, "C02.choices-view", lambda: f"{where}: view of <{k}>.triples_choices((ANY, [p, q], ANY)) missing={_srt(ec - gotv)} extra={_srt(gotv - ec)}", graph_empty=not real)
+                    if not (k == DEF and cfg["union"]):
+                        gotd = {tkey(t) for t in ds.triples_choices((None, ch, None), context=Graph(store, gt))}
+                        ctx.check(gotd == ec, "C02.choices-context", lambda: f"{where}: ds.triples_choices((ANY, [p, q], ANY), context=<{k}>) missing={_srt(ec - gotd)} extra={_srt(gotd - ec)}", graph_empty=not real)
                 gotq = {tkey((s, p, o)) + (norm_ctx(c),) for s, p, o, c in ds.quads((T(pat[0]), T(pat[1]), T(pat[2]), gt))}
                 eq = {t + (k,) for t in real if match(pat, t)}
                 ctx.check(
@@ -452,7 +464,8 @@ def execute(trace, ctx):
             else:
                 gk = gkey(gi)
                 arg = Graph(store, gterm(gi)) if op["how"] == "graph-with-view" else gterm(gi)
-                g = ds.add_graph(arg) if op["how"] == "add_graph" else ds.graph(arg)
+                dsx = ds2 if op.get("h2") else ds
+                g = dsx.add_graph(arg) if op["how"] == "add_graph" else dsx.graph(arg)
                 ctx.check(key(g.identifier) == gk, "C02.graph-identity", lambda: f"ds.graph({gk}) returned a graph named {key(g.identifier)}")
             model.setdefault(gk, set())
             created.add(gk)
@@ -462,7 +475,9 @@ def execute(trace, ctx):
             gk = gkey(gi)
             if gi is None:
                 ctx.probe("default-graph-removed")
-            ds.remove_graph(garg(op, gi))
+            if op.get("h2"):
+                ctx.probe("remove_graph-through-second-dataset")
+            (ds2 if op.get("h2") else ds).remove_graph(garg(op, gi))
             model[gk] = set()
             if gk != DEF:
                 created.discard(gk)
